@@ -23,10 +23,44 @@ if prop == "C18":
     batches = [(["%d" % (vseed * 11 + 1), "3"], "0.05", 16), (["%d" % (vseed * 11 + 2), "2"], "0.01", 32), (["%d" % (vseed * 11 + 3), "2"], "0.003", 32), (["%d" % (vseed * 11 + 4), "2", "hammer"], "0.003", 32)]
 elif prop == "C08":
     batches = [(["%d" % (vseed * 13 + k), "0", "join"], r, 12) for k, r in [(1, "0.05"), (2, "0.01"), (3, "0.003"), (4, "0.01")]]
+elif prop == "C07":
+    batches = []
 else:
-    print("miri tier serves C18 and C08"); sys.exit(2)
+    print("miri tier serves C18, C08 and C07"); sys.exit(2)
 if shutil.which("cargo") is None: sys.exit(2)
 t0 = time.time(); total = 0; viol = None; samples = []
+if prop == "C07":
+    # the unsafe Rust intrinsics (pure build) interpreted by Miri: bounds / alignment / initialisation of every vector
+    # load and store; single-threaded, so the workload seed is the only choice
+    from concurrent.futures import ThreadPoolExecutor
+    env = dict(os.environ, CARGO_NET_OFFLINE="true", MIRIFLAGS="",
+               RUSTFLAGS="--cfg blake3_team_blake3_verif -C target-feature=+sse2,+ssse3,+sse4.1,+avx,+avx2")
+    base = ["cargo", "+nightly", "miri", "run", "--offline", "--features", "pure", "--target-dir", "target/intr", "--"]
+    first = subprocess.run(base + [str(vseed * 100), "0", "intrinsics"], cwd=work, env=env, capture_output=True, text=True)  # builds once
+    outs = [first]
+    n = int(os.environ.get("MIRI_C07_SEEDS", "24"))
+    def one(k):
+        return subprocess.run(base + [str(vseed * 100 + k), "0", "intrinsics"], cwd=work, env=env, capture_output=True, text=True)
+    with ThreadPoolExecutor(max_workers=8) as ex:
+        outs += list(ex.map(one, range(1, n)))
+    for k, p in enumerate(outs):
+        out = p.stdout + p.stderr
+        if p.returncode == 0 and "ok intrinsics" in out:
+            total += 1
+            if "levels_run=3" not in out:
+                samples.append({"note": "a level was not interpreted", "workload_seed": vseed * 100 + k})
+            continue
+        if "unsupported operation" in out and "can't call foreign function" in out or "not supported by Miri" in out:
+            samples.append({"note": "level not covered: an intrinsic is not supported by this Miri", "workload_seed": vseed * 100 + k})
+            continue
+        if "could not compile" in out:
+            sys.stderr.write(out[-3000:]); print("HARNESS ERROR: the Miri tier could not build"); sys.exit(2)
+        detail = next((l for l in out.splitlines() if "LEVEL-DIVERGENCE" in l or "Undefined Behavior" in l), "Miri reported an error")
+        viol = {"property": prop, "engine": "miri", "miri_seed": 0, "preemption_rate": "0", "program_args": [str(vseed * 100 + k), "0", "intrinsics"],
+                "violation": {"property": prop, "class": "sanitizer", "detail": detail.strip()},
+                "replay_cmd": f"cd {src} && RUSTFLAGS='--cfg blake3_team_blake3_verif -C target-feature=+sse2,+ssse3,+sse4.1,+avx,+avx2' cargo +nightly miri run --offline --features pure --target-dir target/intr -- {vseed * 100 + k} 0 intrinsics"}
+        break
+    samples.append({"program": "intrinsics", "workload_seeds": n, "ok": total})
 for args, rate, n in batches:
     env = dict(os.environ, MIRIFLAGS=f"-Zmiri-many-seeds=0..{n} -Zmiri-preemption-rate={rate}", CARGO_NET_OFFLINE="true")
     p = subprocess.run(["cargo", "+nightly", "miri", "run", "--offline", "--"] + args, cwd=work, env=env, capture_output=True, text=True)
